@@ -2120,6 +2120,9 @@ def _inline_adjacent(fn: ast.FunctionDef) -> None:
                 e = e.value
             elif isinstance(e, ast.Subscript):
                 e = e.value
+            elif isinstance(e, ast.Call) and e.args and not isinstance(e.args[0], ast.Starred) \
+                    and (isinstance(e.func, ast.Name) or (isinstance(e.func, ast.Attribute) and isinstance(e.func.value, ast.Name))):
+                e = e.args[0]  # looking up a function / a method of a local evaluates nothing of its own: the first argument comes first
             else:
                 return None
         return None
@@ -2136,6 +2139,14 @@ def _inline_adjacent(fn: ast.FunctionDef) -> None:
                 uses = [n for n in ast.walk(fn) if isinstance(n, ast.Name) and n.id == nm and isinstance(n.ctx, ast.Load)]
                 head = nxt.test if isinstance(nxt, ast.If) else (nxt.value if isinstance(nxt, (ast.Return, ast.Expr, ast.Assign)) else None)
                 ld = lead(head)
+                if len(uses) == 1 and isinstance(st.value, ast.Name) and not isinstance(nxt, (ast.For, ast.While, ast.Try, ast.With, ast.FunctionDef, ast.ClassDef)) \
+                        and any(n is uses[0] for n in ast.walk(nxt)) \
+                        and not any(isinstance(n, ast.Name) and n.id == st.value.id and isinstance(n.ctx, (ast.Store, ast.Del)) for n in ast.walk(nxt)) \
+                        and not any(isinstance(n, (ast.Lambda, ast.FunctionDef)) for n in ast.walk(nxt)):
+                    # t = y (another name of the same object) used once in the very next simple statement: the use reads y
+                    uses[0].id = st.value.id
+                    del block[i]
+                    continue
                 if len(uses) == 1 and ld is uses[0] and not any(isinstance(x, (ast.Yield, ast.YieldFrom, ast.Await, ast.NamedExpr)) for x in ast.walk(st.value)) \
                         and not (_is_container_ctor(st.value) and _is_empty_container(st.value)):
                     new_head = _replace_node(head, ld, st.value)
@@ -2243,6 +2254,58 @@ def _search_loops(fn: ast.FunctionDef) -> None:
     rewrite(fn.body)
 
 
+def _dead_copies(fn: ast.FunctionDef) -> None:
+    """``x = y`` at the top level of a function, y not used afterwards and x bound only here: from here on x *is* y (renamed back)."""
+    counts = _stores(fn)
+    i = 0
+    while i < len(fn.body):
+        st = fn.body[i]
+        if isinstance(st, ast.Assign) and len(st.targets) == 1 and isinstance(st.targets[0], ast.Name) and isinstance(st.value, ast.Name) \
+                and counts.get(st.targets[0].id) == 1 and st.targets[0].id != st.value.id:
+            x, y = st.targets[0].id, st.value.id
+            after = fn.body[i + 1:]
+            before = fn.body[:i]
+            y_later = any(isinstance(n, ast.Name) and n.id == y for b_ in after for n in ast.walk(b_))
+            x_before = any(isinstance(n, ast.Name) and n.id == x for b_ in before for n in ast.walk(b_))
+            scoped = any(isinstance(n, (ast.Nonlocal, ast.Global)) and (x in n.names or y in n.names) for n in ast.walk(fn))
+            params = {a_.arg for a_ in ast.walk(fn.args) if isinstance(a_, ast.arg)}
+            if not y_later and not x_before and not scoped and x not in params:
+                for b_ in after:
+                    for n in ast.walk(b_):
+                        if isinstance(n, ast.Name) and n.id == x:
+                            n.id = y
+                del fn.body[i]
+                counts = _stores(fn)
+                continue
+        i += 1
+
+
+def _param_copies(fn: ast.FunctionDef) -> None:
+    """``x = p`` at the top of a function, p a parameter that is not used anywhere else: x *is* p under another name (renamed back)."""
+    params = {a_.arg for a_ in fn.args.args + fn.args.kwonlyargs + fn.args.posonlyargs}
+    for st in list(fn.body):
+        if isinstance(st, (ast.For, ast.While, ast.If, ast.Try, ast.With)):
+            break
+        if not (isinstance(st, ast.Assign) and len(st.targets) == 1 and isinstance(st.targets[0], ast.Name) and isinstance(st.value, ast.Name)):
+            continue
+        x, p_ = st.targets[0].id, st.value.id
+        if p_ not in params or x in params or x == p_:
+            continue
+        uses_p = [n for n in ast.walk(fn) if isinstance(n, ast.Name) and n.id == p_ and n is not st.value]
+        if uses_p:
+            continue
+        # x must not be visible to nested scopes by its own name in a way renaming would break (nonlocal / global)
+        if any(isinstance(n, (ast.Nonlocal, ast.Global)) and (x in n.names or p_ in n.names) for n in ast.walk(fn)):
+            continue
+        first = next((n for n in ast.walk(ast.Module(body=fn.body, type_ignores=[])) if isinstance(n, ast.Name) and n.id == x), None)
+        if first is not st.targets[0]:
+            continue
+        fn.body.remove(st)
+        for n in ast.walk(fn):
+            if isinstance(n, ast.Name) and n.id == x:
+                n.id = p_
+
+
 def _collect_loops(fn: ast.FunctionDef) -> None:
     """``X = {}`` / ``[]`` followed by a loop that does nothing but fill X (guards spelled as ``if C: continue`` or ``if C: <store>``) is the
     comprehension with the same elements in the same order.  The loop variables must not be read after the loop."""
@@ -2295,6 +2358,14 @@ def _collect_loops(fn: ast.FunctionDef) -> None:
                         comp: ast.expr = ast.DictComp(key=elems[0], value=elems[1], generators=[gen]) if is_dict else ast.ListComp(elt=elems[0], generators=[gen])
                         new = ast.copy_location(ast.Assign(targets=st.targets, value=comp), st)
                         ast.fix_missing_locations(new)
+                        nxt2 = block[i + 2] if i + 2 < len(block) else None
+                        if isinstance(nxt2, ast.Return) and isinstance(nxt2.value, ast.Name) and nxt2.value.id == x \
+                                and not any(isinstance(n, ast.Name) and n.id == x for b_ in block[:i] + block[i + 3:] for n in ast.walk(b_)):
+                            ret = ast.copy_location(ast.Return(value=comp), nxt2)
+                            ast.fix_missing_locations(ret)
+                            block[i:i + 3] = [ret]
+                            i += 1
+                            continue
                         block[i:i + 2] = [new]
                         i += 1
                         continue
@@ -2350,10 +2421,13 @@ def normalize(fn: ast.FunctionDef, cls: ast.ClassDef | None, qual: str, inliner:
                 new.body = [_Subst(consts).visit(st) for st in new.body]
         new.body = _canon_body(new)  # inlined helper bodies get the same canonical spellings
     new = lower(new, tuples=True, ifexp=False)
+    _param_copies(new)
     _search_loops(new)
     _collect_loops(new)
     new = inline_locals(new, keep)
     _inline_adjacent(new)
+    _dead_copies(new)
+    _collect_loops(new)  # (again: a loop body that was `t = E; X.append(t)` is a single store now)
     new = lower(new, tuples=True, ifexp=True)
     _while_true_break(new)
     _flatten_else(new)
